@@ -5,7 +5,8 @@
 From Coq Require Import NArith List Bool String.
 Require Import Webob.Lib.Val Webob.Lib.PyStr Webob.Model.C18_ExcBody Webob.Spec.C18_HtmlTok Webob.Spec.C18_Flat
                Webob.Gen.C18_exctable
-               Webob.Proofs.C18_escape Webob.Proofs.C18_skeleton Webob.Proofs.C18_choice Webob.Proofs.C18_json.
+               Webob.Proofs.C18_escape Webob.Proofs.C18_skeleton Webob.Proofs.C18_choice Webob.Proofs.C18_json
+               Webob.Proofs.C18_history.
 Import ListNotations.
 Local Open Scope N_scope.
 
@@ -169,6 +170,17 @@ Theorem C18_otherwise_generated : forall cfg cl i a ex,
   c_empty cl = false -> (ex = None \/ ex = Some []) -> call cfg cl i a false ex = generate cfg cl i a.
 Proof. exact call_generated. Qed.
 Print Assumptions C18_otherwise_generated.
+
+(* ------------------------------------------------------------------ one instance, many requests *)
+(* the responses of any history of calls on ONE exception instance (whose header list loses Content-Length
+   whenever a body is generated, and which carries the location resolved for a request only while serving it) are exactly those of fresh, identically constructed instances: the response
+   is a function of the class data, the constructor arguments and the request only *)
+Theorem C18_history_stateless : forall cfg cl d c ex hs rs,
+  history cfg cl d c ex hs rs =
+  map (fun r => call cfg cl (mkInp d c (with_location hs (q_location r)) (q_environ r))
+                     (q_accept r) (q_head r) ex) rs.
+Proof. exact history_stateless. Qed.
+Print Assumptions C18_history_stateless.
 
 (* ------------------------------------------------------------------ status line, status_map *)
 Theorem C18_status_line : forall cfg cl i a hd ex,
